@@ -274,6 +274,7 @@ class Spec:
         if k in ('forall', 'exists'):
             env2 = dict(env)
             bound = []
+            guards = []
             for (vn, sn) in e[1]:
                 if sn == 'mathint':
                     c = z3.Const('q_' + vn, IntS)
@@ -285,6 +286,13 @@ class Spec:
                     t = self.resolve_type(ex, sn)
                     c = z3.Const('q_' + vn, ex.ts.sort(t))
                     env2[vn] = ('val', ex.ts.unpack(t, c))
+                    try:
+                        # a quantifier over pointers of type *T ranges over the addresses of variables of type T
+                        ut = self.prog.under(t)[1]
+                        if ut.get('kind') == 'pointer' and ex.typed_struct(ut['elem']) and getattr(ex, 'ptype_guards', False):
+                            guards.append(ex.ptype_fact(c, ut['elem']))
+                    except Exception:
+                        pass
                 bound.append(c)
             # the body is evaluated on scratch copies: facts recorded while evaluating it mention the bound variables
             st_q = st.copy()
@@ -299,6 +307,8 @@ class Spec:
                     st.pc.append(a_)
                     if getattr(st, 'arrdefs', None) is None:
                         st.arrdefs = set()
+            if guards:
+                body = z3.Implies(z3.And(*guards), body) if k == 'forall' else z3.And(*(guards + [body]))
             if k == 'forall':
                 body = self.name_arrays(ex, bound, body, st)
             pats = self.auto_patterns(bound, body) if k == 'forall' else []
@@ -998,6 +1008,15 @@ class Spec:
             a = Addr.aid(ex.term(x))
             # exists now, and is not one of the objects only this path can reach (allocated here, address never stored)
             return V('bool', z3.And(a >= -st.nalloc, *[a != c for c in private]))
+        if fn == 'hastype':
+            # hastype(p, "T"): address p denotes a variable of Go type T (see symex.assume_ptype)
+            x = ev(args[0])
+            t = self.resolve_type(ex, self.typearg(args[1]))
+            return V('bool', ex.ptype_fact(ex.term(x), t))
+        if fn == 'objid':
+            # identity of the allocation (object) an address lies in; interior pointers share it with the object
+            x = ev(args[0])
+            return V(('$mathint',), Addr.aid(ex.term(x)))
         if fn == 'fresh':
             x = ev(args[0])
             if isinstance(x.x, PAddr) and x.x.cid is not None:
@@ -1136,6 +1155,8 @@ class Spec:
                 return
             state['havocked'] = True
             for c in con.of('modifies'):
+                if c.extra.get('private') and not same_pkg:
+                    continue
                 for item in c.extra['items']:
                     self.havoc_item(ex, item, env2, st2, old)
 
@@ -1353,7 +1374,10 @@ class Spec:
 
 
     def havoc_all(self, ex, con, env, st, old):
+        same_pkg = (self.prog.funcs.get(ex.cur_fn) or {}).get('pkg') == con.pkg if ex.cur_fn in self.prog.funcs else False
         for c in con.of('modifies'):
+            if c.extra.get('private') and not same_pkg:
+                continue
             for item in c.extra['items']:
                 self.havoc_item(ex, item, env, st, old)
 
